@@ -20,10 +20,14 @@ type vfC20RecCase struct {
 	Frames int  `json:"frames"` // motion frames in a row with the storage check failing
 	Window bool `json:"window"` // refuse through a closed window instead of the storage check
 	Resets []int `json:"resets,omitempty"` // camera resets after these frames
+	// Kind of the recurring condition: 0 motion start refused, 1 continuous recorder cannot start (every frame),
+	// 2 continuous recorder cannot stop (every frame, max-secs 0), 3 frame write failing during a recording
+	Kind int `json:"kind,omitempty"`
 }
 
 func vfGenC20Rec(t *rapid.T) vfC20RecCase {
 	c := vfC20RecCase{Frames: rapid.IntRange(2, 120).Draw(t, "frames"), Window: rapid.Bool().Draw(t, "window")}
+	c.Kind = rapid.IntRange(0, 3).Draw(t, "kind")
 	for i := rapid.IntRange(0, 3).Draw(t, "nresets"); i > 0; i-- {
 		c.Resets = append(c.Resets, rapid.IntRange(0, c.Frames-1).Draw(t, "resetafter"))
 	}
@@ -46,7 +50,29 @@ func vfRunC20Rec(c vfC20RecCase) *kit.Result {
 	log.SetFlags(0)
 	defer func() { log.SetOutput(oldW); log.SetFlags(oldF) }()
 	rc := vfRecCase{Cfg: vfRecCfg{FPS: 9, Preview: 1, Min: 1, Max: 2, Trigger: 1, W: 4, H: 4, Edge: 1, Gap: 1}}
-	if c.Window {
+	want := "Recording not started"
+	all := make([]int, 0, c.Frames+8)
+	for i := 0; i < c.Frames+8; i++ {
+		all = append(all, i)
+	}
+	switch c.Kind {
+	case 1:
+		rc.Cfg.Cont = true
+		rc.Faults.CStart = all
+		want = "error with starting constant recorder"
+	case 2:
+		rc.Cfg.Cont = true
+		rc.Cfg.Min, rc.Cfg.Max = 0, 0
+		rc.Faults.CStop = all
+		want = "error with stoping constant recorder"
+	case 3:
+		rc.Cfg.Min, rc.Cfg.Max = 20, 20 // one long recording, every write fails
+		for i := 0; i < 400; i++ {
+			rc.Faults.MWrite = append(rc.Faults.MWrite, i)
+		}
+		want = "Failed to write to CPTV file"
+	}
+	if c.Window && c.Kind == 0 {
 		rc.Cfg.WinStart, rc.Cfg.WinEnd = 600, 660 // 10:00-11:00, clock at 12:30
 	}
 	rc.Ev = append(rc.Ev, vfEv{K: vfEvFrame, T: 12*3600 + 1800})
@@ -55,11 +81,11 @@ func vfRunC20Rec(c vfC20RecCase) *kit.Result {
 		resetAfter[i] = true
 	}
 	for i := 0; i < c.Frames; i++ {
-		rc.Ev = append(rc.Ev, vfEv{K: vfEvFrame, M: true, T: 12*3600 + 1800})
-		if !c.Window {
+		rc.Ev = append(rc.Ev, vfEv{K: vfEvFrame, M: c.Kind == 0 || c.Kind == 3, T: 12*3600 + 1800})
+		if !c.Window && c.Kind == 0 {
 			rc.Faults.Check = append(rc.Faults.Check, i)
 		}
-		if resetAfter[i] {
+		if resetAfter[i] && c.Kind == 0 {
 			// a camera reset in between does not make the condition a new one
 			rc.Ev = append(rc.Ev, vfEv{K: vfEvReset, T: 12*3600 + 1800}, vfEv{K: vfEvFrame, T: 12*3600 + 1800})
 		}
@@ -69,9 +95,13 @@ func vfRunC20Rec(c vfC20RecCase) *kit.Result {
 		r.Failf("%s", run.panicked)
 		return r
 	}
-	lines := strings.Count(buf.String(), "Recording not started")
+	lines := strings.Count(buf.String(), want)
 	if lines != 1 {
-		r.Failf("%d consecutive refused starts (well inside one minute) produced %d 'Recording not started' log lines, want exactly 1:\n%s", c.Frames, lines, buf.String())
+		r.Failf("a condition recurring on %d consecutive frames (well inside one minute) produced %d %q log lines, want exactly 1:\n%s", c.Frames, lines, want, vfHead(buf.String(), 600))
+		return r
+	}
+	if total := strings.Count(buf.String(), "\n"); total > 3 {
+		r.Failf("a single recurring condition (%q) produced %d log lines in all:\n%s", want, total, vfHead(buf.String(), 600))
 		return r
 	}
 	r.NT = c.Frames >= 50
@@ -80,6 +110,13 @@ func vfRunC20Rec(c vfC20RecCase) *kit.Result {
 
 func TestVF_C20_Recorder(t *testing.T) {
 	kit.Drive(t, "C20", "TestVF_C20_Recorder",
-		"generated: 2-120 motion frames whose start is refused (storage check failing, or window closed), with up to 3 camera resets in between, through a real MotionProcessor within far less than a minute of real time. Oracle: the recorder's interval is one minute and exactly one 'Recording not started' line is logged. Non-trivial: at least 50 refused frames.",
+		"generated: a single condition recurring on 2-120 consecutive frames - a motion start refused (storage check failing, or window closed, with up to 3 camera resets in between), the continuous recorder unable to start, unable to stop, or every frame write of a long recording failing - through a real MotionProcessor within far less than a minute of real time. Oracle: the recorder's interval is one minute and exactly one line for that condition is logged (and at most 3 lines in all). Non-trivial: at least 50 refused frames.",
 		vfGenC20Rec, vfRunC20Rec)
+}
+
+func vfHead(s string, n int) string {
+	if len(s) > n {
+		return s[:n] + "..."
+	}
+	return s
 }
